@@ -4,6 +4,7 @@ package main
 
 import (
 	"fmt"
+	"os"
 	"go/ast"
 	"go/token"
 	"go/types"
@@ -281,6 +282,9 @@ func (x *Exec) applyContract(fr *Frame, st *State, c *Contract, sig *types.Signa
 	for j := 0; j < sig.Results().Len(); j++ {
 		rets[j] = st.fresh(sig.Results().At(j).Type(), "ret|"+c.Name)
 	}
+	if os.Getenv("GOVC_DEBUG") != "" {
+		fmt.Fprintf(os.Stderr, "applyContract %s determ=%v pure=%v\n", c.Key, c.Determ, c.Pure)
+	}
 	if c.Determ {
 		// results (and the new world) are functions of the old world and the arguments
 		w0 := worldOf(pre)
@@ -290,7 +294,7 @@ func (x *Exec) applyContract(fr *Frame, st *State, c *Contract, sig *types.Signa
 			dv := detResult(c.Key, j, rt, w0, argc)
 			st.assume(valEq(tv{rets[j], rt}, tv{dv, rt}))
 		}
-		if !c.Pure {
+		if !c.Pure && !c.NoWorld {
 			wa := st.arr("G|world", ArrayS(IntS, IntS))
 			st.setArr("G|world", Store(wa, IntLit(0), App("det|"+calleeShort(c.Key)+"|world", IntS, append([]*Term{w0}, argc...)...)))
 		}
@@ -304,27 +308,53 @@ func (x *Exec) applyContract(fr *Frame, st *State, c *Contract, sig *types.Signa
 }
 
 func (x *Exec) findIfaceContract(m *types.Func) *Contract {
-	if m.Pkg() == nil {
-		// universe: error.Error
-		return nil
-	}
-	pp := m.Pkg().Path()
-	for _, c := range x.eng.cs.Funcs {
-		if c.Iface && c.Pkg == pp && c.Name == m.Name() {
-			it := x.eng.lookupType(pp, c.RecvType)
-			if it == nil {
-				continue
-			}
-			if iface, ok := it.Underlying().(*types.Interface); ok {
-				for i := 0; i < iface.NumMethods(); i++ {
-					if iface.Method(i) == m || iface.Method(i).Name() == m.Name() && iface.Method(i).Pkg() == m.Pkg() {
-						return c
-					}
-				}
+	return x.findIfaceContractFor(m, nil)
+}
+
+// findIfaceContractFor finds the interface-method contract for method m, preferring the
+// contract written on the static receiver type, then on the interface that declares m.
+func (x *Exec) findIfaceContractFor(m *types.Func, static types.Type) *Contract {
+	var best *Contract
+	bestScore := 0
+	for _, k := range sortedKeys(x.eng.cs.Funcs) {
+		c := x.eng.cs.Funcs[k]
+		if !c.Iface || c.Name != m.Name() {
+			continue
+		}
+		it := x.eng.lookupType(c.Pkg, c.RecvType)
+		if it == nil {
+			continue
+		}
+		iface, ok := it.Underlying().(*types.Interface)
+		if !ok {
+			continue
+		}
+		has, explicit := false, false
+		for i := 0; i < iface.NumMethods(); i++ {
+			if iface.Method(i) == m {
+				has = true
 			}
 		}
+		for i := 0; i < iface.NumExplicitMethods(); i++ {
+			if iface.ExplicitMethod(i) == m {
+				explicit = true
+			}
+		}
+		if !has {
+			continue
+		}
+		score := 1
+		if explicit {
+			score = 2
+		}
+		if static != nil && types.Identical(canonType(static), canonType(it)) {
+			score = 3
+		}
+		if score > bestScore {
+			best, bestScore = c, score
+		}
 	}
-	return nil
+	return best
 }
 
 func (x *Exec) doCall(fr *Frame, st *State, call *ssa.Call, cc *ssa.CallCommon, d *deferred, k cont) {
@@ -355,7 +385,7 @@ func (x *Exec) doCall(fr *Frame, st *State, call *ssa.Call, cc *ssa.CallCommon, 
 			k(st, r)
 			return
 		}
-		c := x.findIfaceContract(cc.Method)
+		c := x.findIfaceContractFor(cc.Method, cc.Value.Type())
 		if c == nil {
 			x.note("uncontracted interface call (results unconstrained, assumed not to panic, heap assumed unchanged)", cc.Method.FullName())
 			k(st, x.freshResults(st, sig, cc.Method.Name()))
